@@ -4,7 +4,7 @@
    all shapes; the scalar results r are inputs supplied by numpy, the model decides mask
    placement).  eval(): Model/EvalExpr.v, for assignment statements over names, constants, unary
    minus and + - * / (other expression forms are compared with numpy by the Python oracle only). *)
-From PNC Require Import Base.Util Model.Arith Proofs.ArithProofs Model.EvalExpr Proofs.EvalProofs.
+From PNC Require Import Base.Util Model.Arith Proofs.ArithProofs Model.EvalExpr Proofs.EvalProofs Gen.C06Src.
 Require Import QArith.
 Local Close Scope Q_scope.
 Local Open Scope nat_scope.
@@ -127,7 +127,7 @@ Proof. vm_compute. split; reflexivity. Qed.
 Theorem C06_eval_creates_expr : forall f copyall ss r,
   impl_eval f copyall ss = EOk r ->
   exists en tkey base,
-    exec (file_env f) ss = Some en /\ template f ss = Some tkey /\ base_vars f copyall tkey = Some base
+    exec true (file_env f) ss = Some en /\ template f ss = Some tkey /\ base_vars f copyall tkey = Some base
     /\ (forall k, is_target ss k = true -> exists a, elookup k en = Some (VA a) /\ elookup k r = Some a)
     /\ (forall k, is_target ss k = false -> elookup k r = elookup k base).
 Proof. exact eval_creates_expr. Qed.
@@ -135,7 +135,7 @@ Print Assumptions C06_eval_creates_expr.
 
 Theorem C06_eval_single : forall f copyall k e r,
   impl_eval f copyall [(k, e)] = EOk r ->
-  exists a, eval_expr (file_env f) e = Some (VA a) /\ elookup k r = Some a.
+  exists a, eval_expr true (file_env f) e = Some (VA a) /\ elookup k r = Some a.
 Proof. exact eval_single. Qed.
 Print Assumptions C06_eval_single.
 
@@ -147,10 +147,13 @@ Print Assumptions C06_eval_copyall_untouched.
 (* (9) the cellwise meaning used by (8): a binary operation on two arrays is the operation on
    corresponding cells; the result cell is masked iff an operand cell is, or (numpy.ma arrays
    only) a division meets a zero divisor or yields a non-finite quotient *)
-Theorem C06_eval_binop_cellwise : forall o p q,
+Theorem C06_eval_binop_cellwise : forall quirk o p q,
   length (e_cells p) = length (e_cells q) ->
-  val_bin o (VA p) (VA q)
-  = Some (VA (EA (e_ma p || e_ma q) (map2 (cell_bin o (e_ma p || e_ma q)) (e_cells p) (e_cells q)))).
+  val_bin quirk o (VA p) (VA q)
+  = let rk := res_kind quirk (e_kind p) (e_kind q) in
+    Some (VA (EA (fst rk) (map2 (cell_bin o (is_ma (fst rk)))
+                                (if snd rk then clear_masks (e_cells p) else e_cells p)
+                                (if snd rk then clear_masks (e_cells q) else e_cells q)))).
 Proof. exact val_bin_cells. Qed.
 Print Assumptions C06_eval_binop_cellwise.
 
@@ -163,9 +166,9 @@ Print Assumptions C06_eval_cell_mask.
 
 (* file with A = [1, --] (masked-typed), B = [0, 3] (plain), coordinate x; `C = A / B; D = C + 1` *)
 Example C06_eval_inhabited :
-  let f := EF [(10, EA true [MC (Fin (1#1)) false; MC (Fin (5#1)) true]);
-               (11, EA false [MC (Fin (0#1)) false; MC (Fin (3#1)) false]);
-               (2, EA false [MC (Fin (0#1)) false; MC (Fin (1#1)) false])] [2] in
+  let f := EF [(10, EA KPncMa [MC (Fin (1#1)) false; MC (Fin (5#1)) true]);
+               (11, EA KPlain [MC (Fin (0#1)) false; MC (Fin (3#1)) false]);
+               (2, EA KPlain [MC (Fin (0#1)) false; MC (Fin (1#1)) false])] [2] in
   let ss := [(12, EBin ODiv (EVar 10) (EVar 11)); (13, EBin OAdd (EVar 12) (EConst (1#1)%Q))] in
   match impl_eval f false ss with
   | EOk r => map fst r = [2; 12; 13]
@@ -174,3 +177,43 @@ Example C06_eval_inhabited :
   | ERaise => False
   end.
 Proof. vm_compute. repeat split; reflexivity. Qed.
+
+(* (8b) exec true is what the library computes, exec false is masked-array semantics (the property).
+   PARTIAL: they coincide for every statement list without np.ma.* calls (all depths, lengths, masked or
+   plain file variables) ... *)
+Theorem C06_eval_masked_semantics_partial : forall f ss,
+  (forall p, In p (ef_vars f) -> e_kind (snd p) <> KNpMa) ->
+  forallb (fun s => no_maskcall (snd s)) ss = true ->
+  exec true (file_env f) ss = exec false (file_env f) ss.
+Proof. exact eval_quirk_free. Qed.
+Print Assumptions C06_eval_masked_semantics_partial.
+
+(* ... and the FULL statement is false of the faithful model: `C = A + np.ma.masked_less(B, 1)` with plain
+   A = [3], B = [-4.5]: numpy gives the operation to the PseudoNetCDFVariable on the left
+   (__array_priority__ 1e7 > MaskedArray's 15), the result is a plain variable [-1.5] without mask,
+   where masked-array semantics gives [--]. *)
+Theorem C06_eval_plain_left_drops_mask_refuted : exists f ss,
+  eval_quirk_region f ss = true /\
+  match impl_eval f false ss with
+  | EOk r => map (fun p => map visible (e_cells (snd p))) r = [[Some (Fin (-3 # 2))]]
+             /\ spec_eval_ok f false ss (map (fun p => (fst p, map visible (e_cells (snd p)))) r) = false
+  | ERaise => False
+  end.
+Proof.
+  exists (EF [(10, EA KPlain [MC (Fin (3#1)) false]); (11, EA KPlain [MC (Fin (-9#2)) false])] []),
+         [(12, EBin OAdd (EVar 10) (EMaskCmp true (EVar 11) (1#1)%Q))].
+  vm_compute. repeat split; reflexivity.
+Qed.
+Print Assumptions C06_eval_plain_left_drops_mask_refuted.
+
+(* (10) tie T.  Gen/C06Src.v is re-read from core/_files.py and core/_functions.py on every run: the
+   operator table (dunder method -> symbol handed to pncbo, operands in order), the statements of pncbo
+   and the numpy.ma chain of mask() (order, function, arguments) are the ones the model transcribes; the
+   operator classes used by impl_cell follow from the symbols; and the result cell computed from the
+   source record is the model's. *)
+Theorem C06_source_is_model :
+  src_ops = model_ops /\ src_chain = model_chain /\ src_pncbo = model_pncbo /\ src_mask = model_mask
+  /\ map (fun p => op_cls (snd p)) src_ops = [0; 0; 0; 1; 1; 2; 0; 0; 0; 1; 0; 0; 0; 0; 0; 0]
+  /\ forall is_ma cls c, generic_cell src_pncbo is_ma cls c = impl_cell is_ma cls c.
+Proof. repeat split; try (vm_compute; reflexivity). Qed.
+Print Assumptions C06_source_is_model.
